@@ -1,6 +1,10 @@
 import Proofs.XfrSpec
 /-!
 # Convergence of the flat run: AXFR, IXFR chains, AXFR-style answers, the up-to-date answer
+
+The working copy of the machine is followed up to `≃z` (it is a list, only membership matters); the
+side condition that makes `txn.add` / `txn.replace` / `txn.delete_exact` plain set operations is that the
+zones passed through are coherent (`Proofs.XfrZone`).
 -/
 namespace Model.Xfr
 
@@ -20,16 +24,17 @@ theorem recsOfAll_singles (l : List RR) : recsOfAll (l.map single) = l := by
   | nil => rfl
   | cons r rest ih => simp [recsOfAll_cons, recsOf_single, ih]
 
-@[simp] theorem soaRR_owner (o : Name) (d : Rdata) : (soaRR o d).owner = o := rfl
-@[simp] theorem soaRR_rdtype (o : Name) (d : Rdata) : (soaRR o d).rdtype = soaType := rfl
-@[simp] theorem soaRR_rdatas (o : Name) (d : Rdata) : (soaRR o d).rdatas = [d] := rfl
-@[simp] theorem firstSerial_soaRR (o : Name) (d : Rdata) : firstSerial (soaRR o d) = some d.serial := rfl
-@[simp] theorem recsOf_soaRR (o : Name) (d : Rdata) : recsOf (soaRR o d) = [⟨o, soaType, d⟩] := rfl
+@[simp] theorem soaRR_owner (o : Name) (d : Soa) : (soaRR o d).owner = o := rfl
+@[simp] theorem soaRR_rdtype (o : Name) (d : Soa) : (soaRR o d).rdtype = soaType := rfl
+@[simp] theorem soaRR_rdatas (o : Name) (d : Soa) : (soaRR o d).rdatas = [d.rdata] := rfl
+@[simp] theorem soaRR_ttl (o : Name) (d : Soa) : (soaRR o d).ttl = d.ttl := rfl
+@[simp] theorem firstSerial_soaRR (o : Name) (d : Soa) : firstSerial (soaRR o d) = some d.rdata.serial := rfl
+@[simp] theorem recsOf_soaRR (o : Name) (d : Soa) : recsOf (soaRR o d) = [soaRec o d] := rfl
 
-theorem rrsetEq_soaRR (o : Name) (d e : Rdata) : rrsetEq (soaRR o d) (soaRR o e) = decide (d = e) := by
-  by_cases h : d = e
-  · subst h; simp [rrsetEq, soaRR]
-  · have h' : ¬ e = d := fun x => h x.symm
+theorem rrsetEq_soaRR (o : Name) (d e : Soa) : rrsetEq (soaRR o d) (soaRR o e) = decide (d.rdata = e.rdata) := by
+  by_cases h : d.rdata = e.rdata
+  · simp [rrsetEq, soaRR, h]
+  · have h' : ¬ e.rdata = d.rdata := fun x => h x.symm
     simp [rrsetEq, soaRR, h, h']
 
 /-- a state in the middle of a transfer: not done, transaction open -/
@@ -42,82 +47,116 @@ def fin (o : Name) (t : Nat) (inc : Bool) (ser : Option Nat) (udp : Bool) (first
     (z : Zone) : Inbound :=
   ⟨o, t, inc, ser, udp, some first, true, exp, dm, none, z⟩
 
-/-- `txn.replace(origin, soa)` on a working copy -/
-def putSoa (o : Name) (w : Zone) (d : Rdata) : Zone :=
-  (w.filter fun r => ¬ (r.owner = o ∧ r.rdtype = soaType)) ++ [⟨o, soaType, d⟩]
+@[simp] theorem fin_zone {o t inc ser udp f e dm z} : (fin o t inc ser udp f e dm z).zone = z := rfl
+@[simp] theorem fin_done {o t inc ser udp f e dm z} : (fin o t inc ser udp f e dm z).done = true := rfl
 
-/-- a data rrset in add mode: it is stored -/
+/-- `txn.replace(origin, soa)` at the set level -/
+def putSoa (o : Name) (w : Zone) (s : Soa) : Zone := putSoaRec o w (soaRec o s)
+
+theorem mem_putSoa {o : Name} {w : Zone} {d : Soa} {r : RR} :
+    r ∈ putSoa o w d ↔ (r ∈ w ∧ ¬ (r.owner = o ∧ r.rdtype = soaType)) ∨ r = soaRec o d := by
+  simp only [putSoa, putSoaRec, List.mem_append, List.mem_filter, List.mem_singleton, decide_eq_true_eq]
+
+theorem mem_zoneOf {o : Name} {v : Version} {r : RR} :
+    r ∈ zoneOf o v ↔ r ∈ recsOfAll v.body ∨ r = soaRec o v.soa := by
+  simp [zoneOf]
+
+theorem mem_recsOfAll_ok {o : Name} {l : List RRset} (hb : BodyOk o l) {r : RR} (hr : r ∈ recsOfAll l) :
+    r.rdtype ≠ soaType ∧ isSubdomain r.owner o = true := by
+  simp only [recsOfAll, List.mem_flatMap, recsOf, List.mem_map] at hr
+  obtain ⟨rs, hrs, d, _, rfl⟩ := hr
+  exact ⟨(hb rs hrs).1, (hb rs hrs).2.1⟩
+
+/-- in a coherent zone that holds regular data at a name there is no CNAME at that name -/
+theorem no_cname_beside {w : Zone} (hc : Coherent w) {a : RR} (ha : a ∈ w) (hk : kindOf a.rdtype = .regular) :
+    ∀ q ∈ w, q.owner = a.owner → kindOf q.rdtype ≠ .cname := by
+  intro q hq ho hcn
+  have := hc.2.1 a ha q hq ho.symm
+  simp [drivesOut, hk, hcn] at this
+
+theorem soaRec_regular (o : Name) (s : Soa) : kindOf (soaRec o s).rdtype = .regular := kindOf_soa
+
+/-- any zone equivalent to a coherent version: the serial read from it is the version's, and there is no
+CNAME at the apex -/
+theorem serial_of_equiv {o : Name} {v : Version} {z : Zone} (hz : z ≃z zoneOf o v) (hb : BodyOk o v.body) :
+    z.serial o = some v.soa.rdata.serial := by
+  unfold Zone.serial
+  cases hf : z.find? (fun r => r.owner == o && r.rdtype == soaType) with
+  | none =>
+    have := List.find?_eq_none.1 hf (soaRec o v.soa) ((hz _).2 (mem_zoneOf.2 (Or.inr rfl)))
+    simp [soaRec] at this
+  | some r =>
+    have hm := List.mem_of_find?_eq_some hf
+    have hp := List.find?_some hf
+    simp only [Bool.and_eq_true, beq_iff_eq] at hp
+    rcases mem_zoneOf.1 ((hz r).1 hm) with h | h
+    · exact absurd hp.2 (mem_recsOfAll_ok hb h).1
+    · subst h; rfl
+
+/-! ## steps of the machine -/
+
+/-- a data rrset in add mode whose records fit the working copy: stored -/
 theorem mid_add {fix : Bool} {o t inc ser udp f x z} {rs : RRset} {more : Bool}
-    (ht : rs.rdtype ≠ soaType) (hz : isSubdomain rs.owner o = true) :
-    procRRset fix (mid o t inc ser udp f false false x z) rs more =
-      .ok (mid o t inc ser udp f false false ⟨x.work ++ recsOf rs, true⟩ z) := by
+    (ht : rs.rdtype ≠ soaType) (hz : isSubdomain rs.owner o = true) (hne : rs.rdatas ≠ [])
+    (hc : Coherent (x.work ++ recsOf rs)) :
+    ∃ x', procRRset fix (mid o t inc ser udp f false false x z) rs more =
+        .ok (mid o t inc ser udp f false false x' z) ∧ x'.work ≃z (x.work ++ recsOf rs) := by
+  refine ⟨⟨put x.work rs.owner rs.rdtype (unionTtl (existing x.work rs.owner rs.rdtype) rs.ttl)
+      (unionData (isSingleton rs.rdtype) ((existing x.work rs.owner rs.rdtype).map (·.rdata)) rs.rdatas), true⟩, ?_,
+    put_add_equiv hne hc⟩
   simp [mid, procRRset, ht, fallbackState, fallbackTxn, procData, hz, txnAdd]
 
 /-- a run of data rrsets in add mode -/
 theorem mid_adds {fix : Bool} {o t inc ser udp f z} : ∀ (l : List RRset) (x : Txn), BodyOk o l →
-    ∃ c, procAnswers fix (mid o t inc ser udp f false false x z) l =
-      .ok (mid o t inc ser udp f false false ⟨x.work ++ recsOfAll l, c⟩ z) := by
+    Coherent (x.work ++ recsOfAll l) →
+    ∃ x', procAnswers fix (mid o t inc ser udp f false false x z) l =
+        .ok (mid o t inc ser udp f false false x' z) ∧ x'.work ≃z (x.work ++ recsOfAll l) := by
   intro l
   induction l with
-  | nil => intro x _; exact ⟨x.changed, by simp [procAnswers, recsOfAll_nil]⟩
+  | nil => intro x _ _; exact ⟨x, by simp [procAnswers], by simp [recsOfAll_nil, Zone.equiv_refl]⟩
   | cons rs rest ih =>
-    intro x hb
+    intro x hb hc
     have h1 := hb rs (by simp)
-    unfold procAnswers
-    rw [mid_add h1.1 h1.2]
-    simp only []
-    obtain ⟨c, hc⟩ := ih ⟨x.work ++ recsOf rs, true⟩ (fun r hr => hb r (by simp [hr]))
-    exact ⟨c, by rw [hc]; simp [recsOfAll_cons, List.append_assoc]⟩
+    rw [recsOfAll_cons, ← List.append_assoc] at hc
+    obtain ⟨x1, e1, q1⟩ := mid_add (fix := fix) (o := o) (t := t) (inc := inc) (ser := ser) (udp := udp) (f := f)
+      (z := z) (x := x) (more := !rest.isEmpty) h1.1 h1.2.1 h1.2.2
+      (hc.subset fun r hr => List.mem_append.2 (Or.inl hr))
+    obtain ⟨x2, e2, q2⟩ := ih x1 (fun r hr => hb r (by simp [hr]))
+      (Coherent.congr (Zone.equiv_append q1 _) hc)
+    refine ⟨x2, ?_, ?_⟩
+    · unfold procAnswers; rw [e1]; exact e2
+    · rw [recsOfAll_cons, ← List.append_assoc]
+      exact Zone.equiv_trans q2 (Zone.equiv_append q1 _)
 
 /-- the SOA that closes an AXFR (or an AXFR-style answer): replace the apex SOA and commit -/
-theorem mid_final_axfr {o t ser udp x z} {d : Rdata} {dm more : Bool} :
-    procRRset false (mid o t false ser udp (soaRR o d) false dm x z) (soaRR o d) more =
-      .ok (fin o t false ser udp (soaRR o d) false dm (putSoa o x.work d)) := by
+theorem mid_final_axfr {o t ser udp x z} {d : Soa} {dm more : Bool}
+    (hcn : ∀ q ∈ x.work, q.owner = o → kindOf q.rdtype ≠ .cname) :
+    ∃ zf, procRRset false (mid o t false ser udp (soaRR o d) false dm x z) (soaRR o d) more =
+        .ok (fin o t false ser udp (soaRR o d) false dm zf) ∧ zf ≃z putSoa o x.work d := by
   have hfin : isFinalSoa (mid o t false ser udp (soaRR o d) false dm x z) (soaRR o d) = true := by
     simp [isFinalSoa, eqFirst, mid, rrsetEq_soaRR]
+  refine ⟨_, ?_, put_soa_equiv (ttl := d.ttl) (d := d.rdata) hcn⟩
   unfold procRRset
   simp only [hfin]
-  simp [mid, fin, procFinalSoa, txnReplace, putSoa, nextDm]
-
-/-! ## set-level facts about the zone a transfer produces -/
-
-theorem mem_recsOfAll_rdtype {o : Name} {l : List RRset} (hb : BodyOk o l) {r : RR} (hr : r ∈ recsOfAll l) :
-    r.rdtype ≠ soaType := by
-  simp only [recsOfAll, List.mem_flatMap, recsOf, List.mem_map] at hr
-  obtain ⟨rs, hrs, d, _, rfl⟩ := hr
-  exact (hb rs hrs).1
-
-theorem mem_putSoa {o : Name} {w : Zone} {d : Rdata} {r : RR} :
-    r ∈ putSoa o w d ↔ (r ∈ w ∧ ¬ (r.owner = o ∧ r.rdtype = soaType)) ∨ r = ⟨o, soaType, d⟩ := by
-  simp only [putSoa, List.mem_append, List.mem_filter, List.mem_singleton, decide_eq_true_eq]
-
-@[simp] theorem fin_zone {o t inc ser udp f e dm z} : (fin o t inc ser udp f e dm z).zone = z := rfl
-@[simp] theorem fin_done {o t inc ser udp f e dm z} : (fin o t inc ser udp f e dm z).done = true := rfl
-
-theorem serial_putSoa (o : Name) (w : Zone) (d : Rdata) : Zone.serial (putSoa o w d) o = some d.serial := by
-  unfold Zone.serial putSoa
-  rw [List.find?_append]
-  have : (w.filter fun r => ¬ (r.owner = o ∧ r.rdtype = soaType)).find? (fun r => r.owner == o && r.rdtype == soaType) = none := by
-    rw [List.find?_eq_none]
-    intro r hr
-    simp only [List.mem_filter, decide_eq_true_eq] at hr
-    simpa using hr.2
-  rw [this]
-  simp
-
-theorem mem_zoneOf {o : Name} {v : Version} {r : RR} :
-    r ∈ zoneOf o v ↔ r ∈ recsOfAll v.body ∨ r = ⟨o, soaType, v.soa⟩ := by
-  simp [zoneOf]
+  simp [mid, fin, procFinalSoa, txnReplace, nextDm]
 
 /-! ## AXFR -/
 
 /-- the flat AXFR run: completes, and the zone is the version sent (whatever the zone was before) -/
-theorem axfr_flat (o : Name) (v : Version) (z0 : Zone) (ser : Option Nat) (hb : BodyOk o v.body) :
+theorem axfr_flat (o : Name) (v : Version) (z0 : Zone) (ser : Option Nat) (hb : BodyOk o v.body)
+    (hco : Coherent (zoneOf o v)) :
     ∃ s', flatRun ⟨some o, axfrType, ser, false⟩ z0 (axfrStream o v) = .ok s' ∧ s'.done = true ∧
-      s'.zone ≃z zoneOf o v ∧ s'.zone.serial o = some v.soa.serial := by
-  obtain ⟨c, hc⟩ := mid_adds (fix := false) (o := o) (t := axfrType) (inc := false) (ser := ser) (udp := false)
-    (f := soaRR o v.soa) (z := z0) v.body ⟨[], false⟩ hb
-  refine ⟨fin o axfrType false ser false (soaRR o v.soa) false false (putSoa o ([] ++ recsOfAll v.body) v.soa), ?_, rfl, ?_, ?_⟩
+      s'.zone ≃z zoneOf o v := by
+  have hsub : ∀ r ∈ ([] : Zone) ++ recsOfAll v.body, r ∈ zoneOf o v := fun r hr =>
+    mem_zoneOf.2 (Or.inl (by simpa using hr))
+  obtain ⟨x1, e1, q1⟩ := mid_adds (fix := false) (o := o) (t := axfrType) (inc := false) (ser := ser) (udp := false)
+    (f := soaRR o v.soa) (z := z0) v.body ⟨[], false⟩ hb (hco.subset hsub)
+  have hcn : ∀ q ∈ x1.work, q.owner = o → kindOf q.rdtype ≠ .cname := by
+    intro q hq ho
+    exact no_cname_beside hco (mem_zoneOf.2 (Or.inr rfl)) (soaRec_regular o v.soa) q (hsub q ((q1 q).1 hq)) ho
+  obtain ⟨zf, e2, q2⟩ := mid_final_axfr (o := o) (t := axfrType) (ser := ser) (udp := false) (x := x1) (z := z0)
+    (d := v.soa) (dm := false) (more := false) hcn
+  refine ⟨fin o axfrType false ser false (soaRR o v.soa) false false zf, ?_, rfl, ?_⟩
   · have h0 : Inbound.init (some o) z0 axfrType ser false =
         .ok ⟨o, axfrType, false, ser, false, none, false, false, false, none, z0⟩ := by
       simp [Inbound.init, axfrType, ixfrType]
@@ -126,26 +165,25 @@ theorem axfr_flat (o : Name) (v : Version) (z0 : Zone) (ser : Option Nat) (hb : 
       simp [firstSoa, openTxn, writer, mid]
     unfold flatRun axfrStream
     simp only [h0, h1]
-    rw [procAnswers_append, hc]
-    simp only [procAnswers]
-    rw [mid_final_axfr]
+    rw [procAnswers_append, e1]
+    simp only [procAnswers, List.isEmpty_nil, Bool.not_true]
+    rw [e2]
   · intro r
-    rw [fin_zone, mem_putSoa, mem_zoneOf]
+    rw [fin_zone, q2 r, mem_putSoa, q1 r, mem_zoneOf]
     simp only [List.nil_append]
     constructor
     · rintro (⟨h, _⟩ | h)
       · exact Or.inl h
       · exact Or.inr h
     · rintro (h | h)
-      · exact Or.inl ⟨h, fun hk => mem_recsOfAll_rdtype hb h hk.2⟩
+      · exact Or.inl ⟨h, fun hk => (mem_recsOfAll_ok hb h).1 hk.2⟩
       · exact Or.inr h
-  · rw [fin_zone]; exact serial_putSoa o _ v.soa
 
 /-! ## IXFR: the machine applies the difference sequences one after the other -/
 
 /-- `delete_exact` of the records `dels`, one at a time -/
 def delAll (w : Zone) (dels : List RR) : Zone :=
-  dels.foldl (fun w r => w.filter fun q => ¬ (q ∈ recsOf (single r))) w
+  dels.foldl (fun w r => w.filter fun q => ¬ (q ∈ [r])) w
 
 /-- what one difference sequence does to the working copy -/
 def applyStep (o : Name) (w : Zone) (st : Step) : Zone := putSoa o (delAll w st.dels) st.soa ++ st.adds
@@ -160,15 +198,30 @@ theorem mem_delAll : ∀ (dels : List RR) (w : Zone) (q : RR), q ∈ delAll w de
     intro w q
     simp only [delAll, List.foldl_cons] at ih ⊢
     rw [ih]
-    simp only [recsOf_single, List.mem_filter, decide_eq_true_eq, List.mem_cons, not_or, List.not_mem_nil,
-      not_false_eq_true, and_true]
+    simp only [List.mem_filter, decide_eq_true_eq, List.mem_cons, not_or, List.not_mem_nil, or_false]
     constructor
     · rintro ⟨⟨h1, h2⟩, h3⟩; exact ⟨h1, h2, h3⟩
     · rintro ⟨h1, h2, h3⟩; exact ⟨⟨h1, h2⟩, h3⟩
 
+theorem mem_applyStep {o : Name} {w : Zone} {st : Step} {r : RR} :
+    r ∈ applyStep o w st ↔
+      ((r ∈ w ∧ r ∉ st.dels) ∧ ¬ (r.owner = o ∧ r.rdtype = soaType)) ∨ r = soaRec o st.soa ∨ r ∈ st.adds := by
+  simp only [applyStep, List.mem_append, mem_putSoa, mem_delAll, or_assoc]
+
+theorem applyStep_congr {o : Name} {w w' : Zone} (h : w ≃z w') (st : Step) :
+    applyStep o w st ≃z applyStep o w' st := by
+  intro r; rw [mem_applyStep, mem_applyStep, h r]
+
+theorem applyAll_congr {o : Name} : ∀ (steps : List Step) {w w' : Zone}, w ≃z w' →
+    applyAll o w steps ≃z applyAll o w' steps := by
+  intro steps
+  induction steps with
+  | nil => intro w w' h; exact h
+  | cons st rest ih => intro w w' h; exact ih (applyStep_congr h st)
+
 /-- the SOA that opens a deletion set: checked against the current serial, nothing stored -/
-theorem mid_delstart {fix : Bool} {o t b udp x z} {dn cur : Rdata} {exp more : Bool}
-    (hne : cur ≠ dn) (hser : cur.serial = b) :
+theorem mid_delstart {fix : Bool} {o t b udp x z} {dn cur : Soa} {exp more : Bool}
+    (hne : cur.rdata ≠ dn.rdata) (hser : cur.rdata.serial = b) :
     procRRset fix (mid o t true (some b) udp (soaRR o dn) exp false x z) (soaRR o cur) more =
       .ok (mid o t true (some b) udp (soaRR o dn) false true x z) := by
   have hfin : isFinalSoa (mid o t true (some b) udp (soaRR o dn) exp false x z) (soaRR o cur) = false := by
@@ -177,138 +230,225 @@ theorem mid_delstart {fix : Bool} {o t b udp x z} {dn cur : Rdata} {exp more : B
   simp only [hfin]
   simp [mid, procOtherSoa, nextDm, hser]
 
-/-- a record of a deletion set that is present: removed -/
+/-- a record of a deletion set that is present in a coherent working copy: removed -/
 theorem mid_del {fix : Bool} {o t ser udp f x z} {r : RR} {more : Bool}
-    (ht : r.rdtype ≠ soaType) (hz : isSubdomain r.owner o = true) (hin : r ∈ x.work) :
-    procRRset fix (mid o t true ser udp f false true x z) (single r) more =
-      .ok (mid o t true ser udp f false true ⟨x.work.filter fun q => ¬ (q ∈ recsOf (single r)), true⟩ z) := by
-  have h1 : (single r).rdtype ≠ soaType := ht
-  have h2 : isSubdomain (single r).owner o = true := hz
-  simp [mid, procRRset, h1, fallbackState, fallbackTxn, procData, h2, txnDeleteExact, recsOf_single, hin]
-  simp [single]
+    (ht : r.rdtype ≠ soaType) (hz : isSubdomain r.owner o = true) (hc : Coherent x.work) (hin : r ∈ x.work) :
+    ∃ x', procRRset fix (mid o t true ser udp f false true x z) (single r) more =
+        .ok (mid o t true ser udp f false true x' z) ∧ x'.work ≃z (x.work.filter fun q => ¬ (q ∈ [r])) := by
+  refine ⟨⟨if (remaining x.work r.owner r.rdtype [r.rdata]).isEmpty then
+        x.work.filter fun q => !(q.owner == r.owner && q.rdtype == r.rdtype)
+      else put x.work r.owner r.rdtype (ttlOf (existing x.work r.owner r.rdtype))
+        (remaining x.work r.owner r.rdtype [r.rdata]), true⟩, ?_, delete_one_equiv hc hin⟩
+  have hcont' : ∃ a, a ∈ existing x.work r.owner r.rdtype ∧ a.rdata = r.rdata :=
+    ⟨r, mem_existing.2 ⟨hin, rfl, rfl⟩, rfl⟩
+  by_cases hemp : (remaining x.work r.owner r.rdtype [r.rdata]).isEmpty = true
+  · simp [mid, procRRset, ht, fallbackState, fallbackTxn, procData, hz, txnDeleteExact, single, hemp, hcont']
+  · simp [mid, procRRset, ht, fallbackState, fallbackTxn, procData, hz, txnDeleteExact, single, hemp, hcont']
 
-theorem mid_dels {fix : Bool} {o t ser udp f z} : ∀ (dels : List RR) (x : Txn),
+theorem mid_dels {fix : Bool} {o t ser udp f z} : ∀ (dels : List RR) (x : Txn), Coherent x.work →
     (∀ r ∈ dels, r.rdtype ≠ soaType ∧ isSubdomain r.owner o = true ∧ r ∈ x.work) → dels.Nodup →
-    ∃ c, procAnswers fix (mid o t true ser udp f false true x z) (dels.map single) =
-      .ok (mid o t true ser udp f false true ⟨delAll x.work dels, c⟩ z) := by
+    ∃ x', procAnswers fix (mid o t true ser udp f false true x z) (dels.map single) =
+        .ok (mid o t true ser udp f false true x' z) ∧ x'.work ≃z delAll x.work dels := by
   intro dels
   induction dels with
-  | nil => intro x _ _; exact ⟨x.changed, by simp [procAnswers, delAll]⟩
+  | nil => intro x _ _ _; exact ⟨x, by simp [procAnswers], by simp [delAll, Zone.equiv_refl]⟩
   | cons r rest ih =>
-    intro x h hnd
+    intro x hc h hnd
     have h1 := h r (by simp)
-    simp only [List.map_cons]
-    unfold procAnswers
-    rw [mid_del h1.1 h1.2.1 h1.2.2]
-    simp only []
     have hnd' := List.nodup_cons.mp hnd
-    obtain ⟨c, hc⟩ := ih ⟨x.work.filter fun q => ¬ (q ∈ recsOf (single r)), true⟩ (fun q hq => by
+    obtain ⟨x1, e1, q1⟩ := mid_del (fix := fix) (o := o) (t := t) (ser := ser) (udp := udp) (f := f) (z := z)
+      (more := !(rest.map single).isEmpty) h1.1 h1.2.1 hc h1.2.2
+    have hc1 : Coherent x1.work := hc.subset fun q hq => (List.mem_filter.1 ((q1 q).1 hq)).1
+    obtain ⟨x2, e2, q2⟩ := ih x1 hc1 (fun q hq => by
       have hq' := h q (by simp [hq])
-      refine ⟨hq'.1, hq'.2.1, ?_⟩
-      simp only [recsOf_single, List.mem_filter, List.mem_singleton, decide_eq_true_eq]
+      refine ⟨hq'.1, hq'.2.1, (q1 q).2 ?_⟩
+      simp only [List.mem_filter, List.mem_singleton, decide_eq_true_eq]
       exact ⟨hq'.2.2, fun e => hnd'.1 (e ▸ hq)⟩) hnd'.2
-    exact ⟨c, by rw [hc]; simp [delAll]⟩
+    refine ⟨x2, ?_, ?_⟩
+    · simp only [List.map_cons]; unfold procAnswers; rw [e1]; exact e2
+    · intro q
+      rw [q2 q, mem_delAll, q1 q, mem_delAll]
+      simp only [List.mem_filter, decide_eq_true_eq, List.mem_cons, not_or, List.not_mem_nil, not_false_eq_true,
+        and_true]
+      constructor
+      · rintro ⟨⟨a, b⟩, c⟩; exact ⟨a, b, c⟩
+      · rintro ⟨a, b, c⟩; exact ⟨⟨a, b⟩, c⟩
 
 /-- the SOA that opens an addition set: the serial moves on and the apex SOA is replaced -/
-theorem mid_addstart {fix : Bool} {o t ser udp f x z} {d : Rdata} {more : Bool} :
-    procRRset fix (mid o t true ser udp f false true x z) (soaRR o d) more =
-      .ok (mid o t true (some d.serial) udp f false false ⟨putSoa o x.work d, true⟩ z) := by
+theorem mid_addstart {fix : Bool} {o t ser udp f x z} {d : Soa} {more : Bool}
+    (hcn : ∀ q ∈ x.work, q.owner = o → kindOf q.rdtype ≠ .cname) :
+    ∃ x', procRRset fix (mid o t true ser udp f false true x z) (soaRR o d) more =
+        .ok (mid o t true (some d.rdata.serial) udp f false false x' z) ∧ x'.work ≃z putSoa o x.work d := by
   have hfin : isFinalSoa (mid o t true ser udp f false true x z) (soaRR o d) = false := by
     simp [isFinalSoa, mid, nextDm]
+  refine ⟨⟨put x.work o soaType d.ttl [d.rdata], true⟩, ?_, put_soa_equiv hcn⟩
   unfold procRRset
   simp only [hfin]
-  simp [mid, procOtherSoa, nextDm, txnReplace, putSoa]
+  simp [mid, procOtherSoa, nextDm, txnReplace]
 
 /-- the SOA that closes an IXFR: it equals the first one, arrives where a deletion set would start, and
 the serial reached is its serial -/
-theorem mid_final_ixfr {o t udp x z} {dn : Rdata} {more : Bool} :
-    procRRset false (mid o t true (some dn.serial) udp (soaRR o dn) false false x z) (soaRR o dn) more =
-      .ok (fin o t true (some dn.serial) udp (soaRR o dn) false true (putSoa o x.work dn)) := by
-  have hfin : isFinalSoa (mid o t true (some dn.serial) udp (soaRR o dn) false false x z) (soaRR o dn) = true := by
+theorem mid_final_ixfr {o t udp x z} {dn : Soa} {more : Bool}
+    (hcn : ∀ q ∈ x.work, q.owner = o → kindOf q.rdtype ≠ .cname) :
+    ∃ zf, procRRset false (mid o t true (some dn.rdata.serial) udp (soaRR o dn) false false x z) (soaRR o dn) more =
+        .ok (fin o t true (some dn.rdata.serial) udp (soaRR o dn) false true zf) ∧ zf ≃z putSoa o x.work dn := by
+  have hfin : isFinalSoa (mid o t true (some dn.rdata.serial) udp (soaRR o dn) false false x z) (soaRR o dn) = true := by
     simp [isFinalSoa, eqFirst, mid, rrsetEq_soaRR, nextDm]
+  refine ⟨put x.work o soaType dn.ttl [dn.rdata], ?_, put_soa_equiv hcn⟩
   unfold procRRset
   simp only [hfin]
-  simp [mid, fin, procFinalSoa, txnReplace, putSoa, nextDm]
+  simp [mid, fin, procFinalSoa, txnReplace, nextDm]
 
 /-- side conditions of a list of difference sequences applied to the working copy `w`, the current SOA
-being `cur` and the server's final SOA `dn` -/
-def StepsOk (o : Name) (dn : Rdata) : Rdata → Zone → List Step → Prop
+being `cur` and the server's final SOA `dn`: no older SOA is the final one; deletions name records that
+are there, once each; additions are data of the zone; every version passed through is coherent -/
+def StepsOk (o : Name) (dn : Soa) : Soa → Zone → List Step → Prop
   | _, _, [] => True
   | cur, w, st :: rest =>
-    cur ≠ dn ∧ (∀ r ∈ st.dels, r.rdtype ≠ soaType ∧ isSubdomain r.owner o = true ∧ r ∈ w) ∧ st.dels.Nodup ∧
-      (∀ r ∈ st.adds, r.rdtype ≠ soaType ∧ isSubdomain r.owner o = true) ∧
+    cur.rdata ≠ dn.rdata ∧ (∀ r ∈ st.dels, r.rdtype ≠ soaType ∧ isSubdomain r.owner o = true ∧ r ∈ w) ∧ st.dels.Nodup ∧
+      (∀ r ∈ st.adds, r.rdtype ≠ soaType ∧ isSubdomain r.owner o = true) ∧ Coherent (applyStep o w st) ∧
       StepsOk o dn st.soa (applyStep o w st) rest
+
+theorem StepsOk.congr {o : Name} {dn : Soa} : ∀ (steps : List Step) {cur : Soa} {w w' : Zone}, w ≃z w' →
+    StepsOk o dn cur w steps → StepsOk o dn cur w' steps := by
+  intro steps
+  induction steps with
+  | nil => intro _ _ _ _ _; trivial
+  | cons st rest ih =>
+    intro cur w w' h hs
+    obtain ⟨a, b, c, d, e, f⟩ := hs
+    have hq := applyStep_congr (o := o) h st
+    exact ⟨a, fun r hr => ⟨(b r hr).1, (b r hr).2.1, (h r).1 (b r hr).2.2⟩, c, d,
+      Coherent.congr (Zone.equiv_symm hq) e, ih hq f⟩
 
 theorem bodyOk_singles {o : Name} {l : List RR} (h : ∀ r ∈ l, r.rdtype ≠ soaType ∧ isSubdomain r.owner o = true) :
     BodyOk o (l.map single) := by
   intro rs hrs
   simp only [List.mem_map] at hrs
   obtain ⟨r, hr, rfl⟩ := hrs
-  exact h r hr
+  exact ⟨(h r hr).1, (h r hr).2, by simp [single]⟩
+
+/-- one difference sequence -/
+theorem mid_step {o t udp z} {dn cur : Soa} {st : Step} {x : Txn} {exp : Bool} (hc : Coherent x.work)
+    (hne : cur.rdata ≠ dn.rdata)
+    (hdel : ∀ r ∈ st.dels, r.rdtype ≠ soaType ∧ isSubdomain r.owner o = true ∧ r ∈ x.work) (hnd : st.dels.Nodup)
+    (hadd : ∀ r ∈ st.adds, r.rdtype ≠ soaType ∧ isSubdomain r.owner o = true)
+    (hco : Coherent (applyStep o x.work st)) :
+    ∃ x', procAnswers false (mid o t true (some cur.rdata.serial) udp (soaRR o dn) exp false x z)
+        (soaRR o cur :: (st.dels.map single ++ (soaRR o st.soa :: st.adds.map single))) =
+        .ok (mid o t true (some st.soa.rdata.serial) udp (soaRR o dn) false false x' z) ∧
+      x'.work ≃z applyStep o x.work st := by
+  obtain ⟨x1, e1, q1⟩ := mid_dels (fix := false) (o := o) (t := t) (ser := some cur.rdata.serial) (udp := udp)
+    (f := soaRR o dn) (z := z) st.dels x hc hdel hnd
+  -- no CNAME at the apex once the deletions are done: it would sit next to the new SOA
+  have hcn : ∀ q ∈ x1.work, q.owner = o → kindOf q.rdtype ≠ .cname := by
+    intro q hq ho hk
+    have hq' := (q1 q).1 hq
+    have hns : q.rdtype ≠ soaType := fun e => by rw [e, kindOf_soa] at hk; cases hk
+    have hin : q ∈ applyStep o x.work st := by
+      rw [mem_applyStep]; exact Or.inl ⟨(mem_delAll _ _ _).1 hq', fun hk' => hns hk'.2⟩
+    have hs : soaRec o st.soa ∈ applyStep o x.work st := by rw [mem_applyStep]; exact Or.inr (Or.inl rfl)
+    exact no_cname_beside hco hs (soaRec_regular o st.soa) q hin ho hk
+  obtain ⟨x2, e2, q2⟩ := mid_addstart (fix := false) (o := o) (t := t) (ser := some cur.rdata.serial) (udp := udp)
+    (f := soaRR o dn) (x := x1) (z := z) (d := st.soa) (more := !(st.adds.map single).isEmpty) hcn
+  have hq2 : (x2.work ++ recsOfAll (st.adds.map single)) ≃z applyStep o x.work st := by
+    rw [recsOfAll_singles]
+    intro r
+    simp only [List.mem_append, applyStep]
+    rw [q2 r, mem_putSoa, mem_putSoa, q1 r]
+  obtain ⟨x3, e3, q3⟩ := mid_adds (fix := false) (o := o) (t := t) (inc := true) (ser := some st.soa.rdata.serial)
+    (udp := udp) (f := soaRR o dn) (z := z) (st.adds.map single) x2 (bodyOk_singles hadd) (Coherent.congr hq2 hco)
+  refine ⟨x3, ?_, Zone.equiv_trans q3 hq2⟩
+  rw [procAnswers, mid_delstart hne rfl]
+  simp only []
+  rw [procAnswers_append, e1]
+  simp only []
+  rw [procAnswers, e2]
+  exact e3
 
 /-- all difference sequences, one after the other -/
-theorem mid_steps {o t udp z} {dn : Rdata} : ∀ (steps : List Step) (cur : Rdata) (x : Txn) (exp : Bool),
-    StepsOk o dn cur x.work steps →
-    ∃ c, procAnswers false (mid o t true (some cur.serial) udp (soaRR o dn) exp false x z) (ixfrSteps o cur steps) =
-      .ok (mid o t true (some (lastSoa cur steps).serial) udp (soaRR o dn) (exp && steps.isEmpty) false
-            ⟨applyAll o x.work steps, c⟩ z) := by
+theorem mid_steps {o t udp z} {dn : Soa} : ∀ (steps : List Step) (cur : Soa) (x : Txn) (exp : Bool),
+    Coherent x.work → StepsOk o dn cur x.work steps →
+    ∃ x', procAnswers false (mid o t true (some cur.rdata.serial) udp (soaRR o dn) exp false x z) (ixfrSteps o cur steps) =
+        .ok (mid o t true (some (lastSoa cur steps).rdata.serial) udp (soaRR o dn) (exp && steps.isEmpty) false x' z) ∧
+      x'.work ≃z applyAll o x.work steps ∧ Coherent x'.work := by
   intro steps
   induction steps with
-  | nil => intro cur x exp _; exact ⟨x.changed, by simp [procAnswers, ixfrSteps, lastSoa, applyAll]⟩
+  | nil =>
+    intro cur x exp hc _
+    exact ⟨x, by simp [procAnswers, ixfrSteps, lastSoa], by simp [applyAll, Zone.equiv_refl], hc⟩
   | cons st rest ih =>
-    intro cur x exp h
-    obtain ⟨hne, hdel, hnd, hadd, hrest⟩ := h
-    obtain ⟨c1, h1⟩ := mid_dels (fix := false) (o := o) (t := t) (ser := some cur.serial) (udp := udp)
-      (f := soaRR o dn) (z := z) st.dels x hdel hnd
-    obtain ⟨c2, h2⟩ := mid_adds (fix := false) (o := o) (t := t) (inc := true) (ser := some st.soa.serial) (udp := udp)
-      (f := soaRR o dn) (z := z) (st.adds.map single) ⟨putSoa o (delAll x.work st.dels) st.soa, true⟩ (bodyOk_singles hadd)
-    obtain ⟨c3, h3⟩ := ih st.soa ⟨applyStep o x.work st, c2⟩ false hrest
-    refine ⟨c3, ?_⟩
-    simp only [ixfrSteps]
-    rw [procAnswers, mid_delstart hne rfl]
-    simp only []
-    rw [procAnswers_append, h1]
-    simp only []
-    rw [procAnswers, mid_addstart]
-    simp only []
-    rw [procAnswers_append, h2]
-    simp only [recsOfAll_singles]
-    have : (⟨putSoa o (delAll x.work st.dels) st.soa ++ st.adds, c2⟩ : Txn) = ⟨applyStep o x.work st, c2⟩ := rfl
-    rw [this, h3]
-    simp [lastSoa, applyAll]
+    intro cur x exp hc h
+    obtain ⟨hne, hdel, hnd, hadd, hco, hrest⟩ := h
+    obtain ⟨x1, e1, q1⟩ := mid_step (o := o) (t := t) (udp := udp) (z := z) (dn := dn) (cur := cur) (st := st)
+      (x := x) (exp := exp) hc hne hdel hnd hadd hco
+    have hc1 : Coherent x1.work := Coherent.congr q1 hco
+    obtain ⟨x2, e2, q2, hc2⟩ := ih st.soa x1 false hc1 (StepsOk.congr rest (Zone.equiv_symm q1) hrest)
+    refine ⟨x2, ?_, ?_, hc2⟩
+    · have hsplit : ixfrSteps o cur (st :: rest) =
+          (soaRR o cur :: (st.dels.map single ++ (soaRR o st.soa :: st.adds.map single))) ++ ixfrSteps o st.soa rest := by
+        simp [ixfrSteps]
+      rw [hsplit, procAnswers_append, e1]
+      simp only []
+      rw [e2]
+      simp [lastSoa]
+    · exact Zone.equiv_trans q2 (applyAll_congr rest q1)
 
-/-- the flat IXFR run over TCP: completes; the zone is what the difference sequences make of the zone
-before, under the final SOA -/
-theorem ixfr_flat (o : Name) (cur : Rdata) (steps : List Step) (z0 : Zone) (udp : Bool) (hne : steps ≠ [])
-    (hs1 : (lastSoa cur steps).serial ≠ cur.serial) (hs2 : serialLt (lastSoa cur steps).serial cur.serial = false)
-    (hok : StepsOk o (lastSoa cur steps) cur z0 steps) :
-    flatRun ⟨some o, ixfrType, some cur.serial, udp⟩ z0 (ixfrStream o cur steps) =
-      .ok (fin o ixfrType true (some (lastSoa cur steps).serial) udp (soaRR o (lastSoa cur steps)) false true
-            (putSoa o (applyAll o z0 steps) (lastSoa cur steps))) := by
-  have h0 : Inbound.init (some o) z0 ixfrType (some cur.serial) udp =
-      .ok ⟨o, ixfrType, true, some cur.serial, udp, none, false, false, false, none, z0⟩ := by
+theorem soaRec_mem_applyAll {o : Name} : ∀ (steps : List Step) (cur : Soa) (w : Zone), steps ≠ [] →
+    soaRec o (lastSoa cur steps) ∈ applyAll o w steps := by
+  intro steps
+  induction steps with
+  | nil => intro _ _ h; exact absurd rfl h
+  | cons st rest ih =>
+    intro cur w _
+    cases rest with
+    | nil =>
+      have : soaRec o st.soa ∈ applyStep o w st := mem_applyStep.2 (Or.inr (Or.inl rfl))
+      simpa [applyAll, lastSoa] using this
+    | cons st2 rest2 => exact ih st.soa (applyStep o w st) (by simp)
+
+/-- the flat IXFR run: completes; the zone is what the difference sequences make of the zone before,
+under the final SOA -/
+theorem ixfr_flat (o : Name) (cur : Soa) (steps : List Step) (z0 : Zone) (udp : Bool) (hne : steps ≠ [])
+    (hs1 : (lastSoa cur steps).rdata.serial ≠ cur.rdata.serial)
+    (hs2 : serialLt (lastSoa cur steps).rdata.serial cur.rdata.serial = false)
+    (hc0 : Coherent z0) (hok : StepsOk o (lastSoa cur steps) cur z0 steps) :
+    ∃ zf, flatRun ⟨some o, ixfrType, some cur.rdata.serial, udp⟩ z0 (ixfrStream o cur steps) =
+        .ok (fin o ixfrType true (some (lastSoa cur steps).rdata.serial) udp (soaRR o (lastSoa cur steps)) false true zf) ∧
+      zf ≃z putSoa o (applyAll o z0 steps) (lastSoa cur steps) := by
+  have h0 : Inbound.init (some o) z0 ixfrType (some cur.rdata.serial) udp =
+      .ok ⟨o, ixfrType, true, some cur.rdata.serial, udp, none, false, false, false, none, z0⟩ := by
     simp [Inbound.init]
-  have h1 : firstSoa (openTxn ⟨o, ixfrType, true, some cur.serial, udp, none, false, false, false, none, z0⟩)
+  have h1 : firstSoa (openTxn ⟨o, ixfrType, true, some cur.rdata.serial, udp, none, false, false, false, none, z0⟩)
       (soaRR o (lastSoa cur steps)) false =
-      .ok (mid o ixfrType true (some cur.serial) udp (soaRR o (lastSoa cur steps)) true false ⟨z0, false⟩ z0) := by
+      .ok (mid o ixfrType true (some cur.rdata.serial) udp (soaRR o (lastSoa cur steps)) true false ⟨z0, false⟩ z0) := by
     simp [firstSoa, openTxn, writer, mid, hs1, hs2]
-  obtain ⟨c, hc⟩ := mid_steps (o := o) (t := ixfrType) (udp := udp) (z := z0) (dn := lastSoa cur steps)
-    steps cur ⟨z0, false⟩ true hok
-  unfold flatRun ixfrStream
-  simp only [h0, h1]
-  rw [procAnswers_append, hc]
-  have he : steps.isEmpty = false := by cases steps <;> simp_all
-  simp only [he, Bool.and_false, procAnswers]
-  rw [mid_final_ixfr]
+  obtain ⟨x1, e1, q1, hc1⟩ := mid_steps (o := o) (t := ixfrType) (udp := udp) (z := z0) (dn := lastSoa cur steps)
+    steps cur ⟨z0, false⟩ true hc0 hok
+  have hcn : ∀ q ∈ x1.work, q.owner = o → kindOf q.rdtype ≠ .cname :=
+    no_cname_beside hc1 ((q1 _).2 (soaRec_mem_applyAll steps cur z0 hne)) (soaRec_regular o _)
+  obtain ⟨zf, e2, q2⟩ := mid_final_ixfr (o := o) (t := ixfrType) (udp := udp) (x := x1) (z := z0)
+    (dn := lastSoa cur steps) (more := false) hcn
+  refine ⟨zf, ?_, ?_⟩
+  · unfold flatRun ixfrStream
+    simp only [h0, h1]
+    rw [procAnswers_append, e1]
+    have he : steps.isEmpty = false := by cases steps <;> simp_all
+    simp only [he, Bool.and_false, procAnswers, List.isEmpty_nil, Bool.not_true]
+    rw [e2]
+  · intro r; rw [q2 r, mem_putSoa, mem_putSoa, q1 r]
 
 /-! ## IXFR between zone versions: the difference sequences a server computes -/
 
-/-- A zone version that can be served: its rrsets are in the zone, none is an SOA, no record twice. -/
+/-- A zone version that can be served: its rrsets are in the zone, not empty, none is an SOA, no record
+twice, and it is a coherent zone (one TTL per rrset, no CNAME next to other data, one rdata per singleton). -/
 structure WfVersion (o : Name) (v : Version) : Prop where
   body : BodyOk o v.body
   nodup : (recsOfAll v.body).Nodup
+  coherent : Coherent (zoneOf o v)
 
-/-- the difference sequence from version `a` to version `b` -/
+/-- the difference sequence from version `a` to version `b`, on records with their TTLs (an rrset whose
+TTL changes is removed and added again) -/
 def diffStep (a b : Version) : Step :=
   ⟨(recsOfAll a.body).filter (fun r => r ∉ recsOfAll b.body), b.soa,
    (recsOfAll b.body).filter (fun r => r ∉ recsOfAll a.body)⟩
@@ -328,21 +468,15 @@ theorem lastSoa_diffSteps : ∀ (vs : List Version) (a : Version),
   | nil => intro a; rfl
   | cons b rest ih => intro a; simp [diffSteps, lastSoa, lastVersion, diffStep, ih b]
 
-theorem mem_recsOfAll_ok {o : Name} {l : List RRset} (hb : BodyOk o l) {r : RR} (hr : r ∈ recsOfAll l) :
-    r.rdtype ≠ soaType ∧ isSubdomain r.owner o = true := by
-  simp only [recsOfAll, List.mem_flatMap, recsOf, List.mem_map] at hr
-  obtain ⟨rs, hrs, d, _, rfl⟩ := hr
-  exact hb rs hrs
-
 /-- one difference sequence takes (any list representing) version `a` to version `b` -/
 theorem applyStep_diff {o : Name} {a b : Version} {w : Zone} (hw : w ≃z zoneOf o a)
     (hb : BodyOk o b.body) : applyStep o w (diffStep a b) ≃z zoneOf o b := by
   intro r
-  simp only [applyStep, diffStep, List.mem_append, mem_putSoa, mem_delAll, List.mem_filter, decide_eq_true_eq,
-    mem_zoneOf]
+  rw [mem_applyStep]
+  simp only [diffStep, List.mem_filter, decide_eq_true_eq, mem_zoneOf]
   rw [hw r, mem_zoneOf]
   constructor
-  · rintro ((⟨⟨hra | hra, hnd⟩, hk⟩ | h) | ⟨h, _⟩)
+  · rintro (⟨⟨hra | hra, hnd⟩, hk⟩ | h | ⟨h, _⟩)
     · left
       by_cases hrb : r ∈ recsOfAll b.body
       · exact hrb
@@ -352,10 +486,10 @@ theorem applyStep_diff {o : Name} {a b : Version} {w : Zone} (hw : w ≃z zoneOf
     · exact Or.inl h
   · rintro (hrb | h)
     · by_cases hra : r ∈ recsOfAll a.body
-      · left; left
+      · left
         exact ⟨⟨Or.inl hra, fun hx => hx.2 hrb⟩, fun hk => (mem_recsOfAll_ok hb hrb).1 hk.2⟩
-      · right; exact ⟨hrb, hra⟩
-    · left; right; exact h
+      · right; right; exact ⟨hrb, hra⟩
+    · right; left; exact h
 
 /-- replacing the apex SOA of (a list representing) a version by that same SOA changes nothing -/
 theorem putSoa_same {o : Name} {v : Version} {w : Zone} (hw : w ≃z zoneOf o v) (hb : BodyOk o v.body) :
@@ -371,8 +505,9 @@ theorem putSoa_same {o : Name} {v : Version} {w : Zone} (hw : w ≃z zoneOf o v)
     · exact Or.inl ⟨Or.inl h, fun hk => (mem_recsOfAll_ok hb h).1 hk.2⟩
     · exact Or.inr h
 
-theorem stepsOk_diff {o : Name} {dn : Rdata} : ∀ (vs : List Version) (a : Version) (w : Zone),
-    w ≃z zoneOf o a → WfVersion o a → (∀ v ∈ vs, WfVersion o v) → (∀ v ∈ (a :: vs).dropLast, v.soa ≠ dn) →
+theorem stepsOk_diff {o : Name} {dn : Soa} : ∀ (vs : List Version) (a : Version) (w : Zone),
+    w ≃z zoneOf o a → WfVersion o a → (∀ v ∈ vs, WfVersion o v) →
+    (∀ v ∈ (a :: vs).dropLast, v.soa.rdata ≠ dn.rdata) →
     StepsOk o dn a.soa w (diffSteps a vs) ∧ applyAll o w (diffSteps a vs) ≃z zoneOf o (lastVersion a vs) := by
   intro vs
   induction vs with
@@ -380,13 +515,13 @@ theorem stepsOk_diff {o : Name} {dn : Rdata} : ∀ (vs : List Version) (a : Vers
   | cons b rest ih =>
     intro a w hw ha hvs hd
     have hb := hvs b (by simp)
-    have hstep := applyStep_diff hw hb.body
+    have hstep := applyStep_diff (a := a) hw hb.body
     have hrec := ih b (applyStep o w (diffStep a b)) hstep hb (fun v hv => hvs v (by simp [hv]))
       (fun v hv => hd v (by
         cases rest with
         | nil => simp at hv
         | cons c cs => simp only [List.dropLast_cons_cons, List.mem_cons] at hv ⊢; exact Or.inr hv))
-    refine ⟨⟨hd a (by simp [List.dropLast]), ?_, ?_, ?_, hrec.1⟩, ?_⟩
+    refine ⟨⟨hd a (by simp [List.dropLast]), ?_, ?_, ?_, Coherent.congr hstep hb.coherent, hrec.1⟩, ?_⟩
     · intro r hr
       simp only [diffStep, List.mem_filter] at hr
       have := mem_recsOfAll_ok ha.body hr.1
@@ -397,29 +532,72 @@ theorem stepsOk_diff {o : Name} {dn : Rdata} : ∀ (vs : List Version) (a : Vers
       exact mem_recsOfAll_ok hb.body hr.1
     · simpa [diffSteps, applyAll, lastVersion] using hrec.2
 
+theorem wf_lastVersion {o : Name} : ∀ (vs : List Version) (a : Version), WfVersion o a →
+    (∀ v ∈ vs, WfVersion o v) → WfVersion o (lastVersion a vs) := by
+  intro vs
+  induction vs with
+  | nil => intro a ha _; exact ha
+  | cons b rest ih => intro a _ hvs; exact ih b (hvs b (by simp)) (fun v hv => hvs v (by simp [hv]))
+
+/-- the flat IXFR run between versions: completes, and the zone is the last version -/
+theorem ixfr_versions_flat (o : Name) (v0 : Version) (vs : List Version) (z0 : Zone) (udp : Bool)
+    (hne : vs ≠ []) (hz0 : z0 ≃z zoneOf o v0) (hv0 : WfVersion o v0) (hvs : ∀ v ∈ vs, WfVersion o v)
+    (hdist : ∀ v ∈ (v0 :: vs).dropLast, v.soa.rdata ≠ (lastVersion v0 vs).soa.rdata)
+    (hs1 : (lastVersion v0 vs).soa.rdata.serial ≠ v0.soa.rdata.serial)
+    (hs2 : serialLt (lastVersion v0 vs).soa.rdata.serial v0.soa.rdata.serial = false) :
+    ∃ s', flatRun ⟨some o, ixfrType, some v0.soa.rdata.serial, udp⟩ z0 (ixfrStream o v0.soa (diffSteps v0 vs)) = .ok s' ∧
+      s'.done = true ∧ s'.zone ≃z zoneOf o (lastVersion v0 vs) := by
+  have hl := lastSoa_diffSteps vs v0
+  have hsteps : diffSteps v0 vs ≠ [] := by cases vs <;> simp_all [diffSteps]
+  have hok := stepsOk_diff (dn := (lastVersion v0 vs).soa) vs v0 z0 hz0 hv0 hvs hdist
+  have hlast := wf_lastVersion vs v0 hv0 hvs
+  obtain ⟨zf, hf, hq⟩ := ixfr_flat o v0.soa (diffSteps v0 vs) z0 udp hsteps (by rw [hl]; exact hs1)
+    (by rw [hl]; exact hs2) (Coherent.congr hz0 hv0.coherent) (by rw [hl]; exact hok.1)
+  refine ⟨_, hf, rfl, ?_⟩
+  rw [fin_zone]
+  rw [hl] at hq
+  exact Zone.equiv_trans hq (putSoa_same hok.2 hlast.body)
+
 /-! ## AXFR-style answer to an IXFR request -/
 
 /-- the first data rrset after the first SOA, while another SOA was expected: roll back, start a
 replacement transaction, store the rrset -/
 theorem mid_fallback_add {fix : Bool} {o t inc ser udp f dm x z} {rs : RRset} {more : Bool}
-    (ht : rs.rdtype ≠ soaType) (hz : isSubdomain rs.owner o = true) :
-    procRRset fix (mid o t inc ser udp f true dm x z) rs more =
-      .ok (mid o t false ser udp f false false ⟨recsOf rs, true⟩ z) := by
-  simp [mid, procRRset, ht, fallbackState, fallbackTxn, procData, hz, txnAdd, writer]
+    (ht : rs.rdtype ≠ soaType) (hz : isSubdomain rs.owner o = true) (hne : rs.rdatas ≠ [])
+    (hc : Coherent (recsOf rs)) :
+    ∃ x', procRRset fix (mid o t inc ser udp f true dm x z) rs more =
+        .ok (mid o t false ser udp f false false x' z) ∧ x'.work ≃z recsOf rs := by
+  refine ⟨⟨put [] rs.owner rs.rdtype (unionTtl (existing [] rs.owner rs.rdtype) rs.ttl)
+      (unionData (isSingleton rs.rdtype) ((existing [] rs.owner rs.rdtype).map (·.rdata)) rs.rdatas), true⟩, ?_, ?_⟩
+  · simp [mid, procRRset, ht, fallbackState, fallbackTxn, procData, hz, txnAdd, writer]
+  · have := put_add_equiv (w := []) hne (by simpa using hc)
+    simpa using this
 
 theorem axfr_style_flat (o : Name) (v : Version) (z0 : Zone) (b : Nat) (hb : BodyOk o v.body)
-    (hne : v.body ≠ []) (hs1 : v.soa.serial ≠ b) (hs2 : serialLt v.soa.serial b = false) :
+    (hco : Coherent (zoneOf o v))
+    (hne : v.body ≠ []) (hs1 : v.soa.rdata.serial ≠ b) (hs2 : serialLt v.soa.rdata.serial b = false) :
     ∃ s', flatRun ⟨some o, ixfrType, some b, false⟩ z0 (axfrStream o v) = .ok s' ∧ s'.done = true ∧
-      s'.zone ≃z zoneOf o v ∧ s'.zone.serial o = some v.soa.serial := by
+      s'.zone ≃z zoneOf o v := by
   cases hbody : v.body with
   | nil => exact absurd hbody hne
   | cons rs0 rest =>
     have hb0 := hb rs0 (by simp [hbody])
     have hbr : BodyOk o rest := fun r hr => hb r (by simp [hbody, hr])
-    obtain ⟨c, hc⟩ := mid_adds (fix := false) (o := o) (t := ixfrType) (inc := false) (ser := some b) (udp := false)
-      (f := soaRR o v.soa) (z := z0) rest ⟨recsOf rs0, true⟩ hbr
-    refine ⟨fin o ixfrType false (some b) false (soaRR o v.soa) false false
-      (putSoa o (recsOf rs0 ++ recsOfAll rest) v.soa), ?_, rfl, ?_, ?_⟩
+    have hsub : ∀ r ∈ recsOf rs0 ++ recsOfAll rest, r ∈ zoneOf o v := fun r hr =>
+      mem_zoneOf.2 (Or.inl (by rw [hbody, recsOfAll_cons]; exact hr))
+    obtain ⟨x0, e0, q0⟩ := mid_fallback_add (fix := false) (o := o) (t := ixfrType) (inc := true) (ser := some b)
+      (udp := false) (f := soaRR o v.soa) (dm := false) (x := ⟨z0, false⟩) (z := z0) (more := !(rest ++ [soaRR o v.soa]).isEmpty)
+      hb0.1 hb0.2.1 hb0.2.2 (hco.subset fun r hr => hsub r (List.mem_append.2 (Or.inl hr)))
+    obtain ⟨x1, e1, q1⟩ := mid_adds (fix := false) (o := o) (t := ixfrType) (inc := false) (ser := some b) (udp := false)
+      (f := soaRR o v.soa) (z := z0) rest x0 hbr
+      (Coherent.congr (Zone.equiv_append q0 _) (hco.subset hsub))
+    have hq1 : x1.work ≃z (recsOf rs0 ++ recsOfAll rest) := Zone.equiv_trans q1 (Zone.equiv_append q0 _)
+    have hcn : ∀ q ∈ x1.work, q.owner = o → kindOf q.rdtype ≠ .cname := by
+      intro q hq ho
+      exact no_cname_beside hco (mem_zoneOf.2 (Or.inr rfl)) (soaRec_regular o v.soa) q (hsub q ((hq1 q).1 hq)) ho
+    obtain ⟨zf, e2, q2⟩ := mid_final_axfr (o := o) (t := ixfrType) (ser := some b) (udp := false) (x := x1) (z := z0)
+      (d := v.soa) (dm := false) (more := false) hcn
+    refine ⟨fin o ixfrType false (some b) false (soaRR o v.soa) false false zf, ?_, rfl, ?_⟩
     · have h0 : Inbound.init (some o) z0 ixfrType (some b) false =
           .ok ⟨o, ixfrType, true, some b, false, none, false, false, false, none, z0⟩ := by
         simp [Inbound.init]
@@ -429,13 +607,13 @@ theorem axfr_style_flat (o : Name) (v : Version) (z0 : Zone) (b : Nat) (hb : Bod
         simp [firstSoa, openTxn, writer, mid, hs1, hs2]
       unfold flatRun axfrStream
       simp only [h0, h1, hbody, List.cons_append]
-      rw [procAnswers, mid_fallback_add hb0.1 hb0.2]
+      rw [procAnswers, e0]
       simp only []
-      rw [procAnswers_append, hc]
-      simp only [procAnswers]
-      rw [mid_final_axfr]
+      rw [procAnswers_append, e1]
+      simp only [procAnswers, List.isEmpty_nil, Bool.not_true]
+      rw [e2]
     · intro r
-      rw [fin_zone, mem_putSoa, mem_zoneOf, hbody, recsOfAll_cons]
+      rw [fin_zone, q2 r, mem_putSoa, hq1 r, mem_zoneOf, hbody, recsOfAll_cons]
       constructor
       · rintro (⟨h, _⟩ | h)
         · exact Or.inl h
@@ -443,9 +621,8 @@ theorem axfr_style_flat (o : Name) (v : Version) (z0 : Zone) (b : Nat) (hb : Bod
       · rintro (h | h)
         · refine Or.inl ⟨h, fun hk => ?_⟩
           have : r ∈ recsOfAll v.body := by rw [hbody, recsOfAll_cons]; exact h
-          exact mem_recsOfAll_rdtype hb this hk.2
+          exact (mem_recsOfAll_ok hb this).1 hk.2
         · exact Or.inr h
-    · rw [fin_zone]; exact serial_putSoa o _ v.soa
 
 /-! ## one UDP datagram; the up-to-date answer; the truncated UDP answer -/
 
@@ -486,24 +663,24 @@ theorem run_udp_single {c : Config} {z0 : Zone} {m : Msg} {rr0 r1 : RRset} {rest
 
 /-- **Already up to date**: the server's SOA carries the serial we asked about; with nothing else in the
 message the transfer is complete, nothing is raised and the zone is untouched (either variant, TCP or UDP). -/
-theorem uptodate_run (fix : Bool) (o : Name) (z0 : Zone) (d : Rdata) (udp : Bool) (m : Msg) (more : List Msg)
+theorem uptodate_run (fix : Bool) (o : Name) (z0 : Zone) (d : Soa) (udp : Bool) (m : Msg) (more : List Msg)
     (hh : headerErrOf o ixfrType m = none) (ha : m.answer = [soaRR o d]) :
-    run fix ⟨some o, ixfrType, some d.serial, udp⟩ z0 (m :: more) = ⟨none, z0⟩ := by
+    run fix ⟨some o, ixfrType, some d.rdata.serial, udp⟩ z0 (m :: more) = ⟨none, z0⟩ := by
   simp [run, Inbound.init, runLoop, procMessage, headerErr, hh, openTxn, procBody, ha, firstSoa, procAnswers,
     udpCheck]
 
 /-- **UseTCP**: over UDP, a lone SOA with a newer serial is the "truncated" answer -/
-theorem udp_truncated_run (fix : Bool) (o : Name) (z0 : Zone) (d : Rdata) (b : Nat) (m : Msg) (more : List Msg)
+theorem udp_truncated_run (fix : Bool) (o : Name) (z0 : Zone) (d : Soa) (b : Nat) (m : Msg) (more : List Msg)
     (hh : headerErrOf o ixfrType m = none) (ha : m.answer = [soaRR o d])
-    (hs1 : d.serial ≠ b) (hs2 : serialLt d.serial b = false) :
+    (hs1 : d.rdata.serial ≠ b) (hs2 : serialLt d.rdata.serial b = false) :
     run fix ⟨some o, ixfrType, some b, true⟩ z0 (m :: more) = ⟨some .UseTCP, z0⟩ := by
   simp [run, Inbound.init, runLoop, procMessage, headerErr, hh, openTxn, procBody, ha, firstSoa, hs1, hs2]
 
 /-- **Serial went backwards**: the server's SOA is behind the serial we hold (RFC 1982), whatever follows -/
-theorem backwards_run (fix : Bool) (o : Name) (z0 : Zone) (d : Rdata) (b : Nat) (udp : Bool) (m : Msg)
+theorem backwards_run (fix : Bool) (o : Name) (z0 : Zone) (d : Soa) (b : Nat) (udp : Bool) (m : Msg)
     (rest : List RRset) (more : List Msg)
     (hh : headerErrOf o ixfrType m = none) (ha : m.answer = soaRR o d :: rest)
-    (hs1 : d.serial ≠ b) (hs2 : serialLt d.serial b = true) :
+    (hs1 : d.rdata.serial ≠ b) (hs2 : serialLt d.rdata.serial b = true) :
     run fix ⟨some o, ixfrType, some b, udp⟩ z0 (m :: more) = ⟨some .SerialWentBackwards, z0⟩ := by
   simp [run, Inbound.init, runLoop, procMessage, headerErr, hh, openTxn, procBody, ha, firstSoa, hs1, hs2]
 
